@@ -402,6 +402,11 @@ static void apply_transport(RunState &rs, int node, Frame &f) {
             if (m.a / 8 < cur.data.size()) cur.data[m.a / 8] ^= (uint8_t)(0x80 >> (m.a % 8));
             cur.damaged = true;
             w.count("fault.flip");
+        } else if (m.kind == "add") {  // field += delta (two's complement), e.g. a timestamp moved by whole media clock periods
+            uint64_t cur_v = wire::get_bits(cur.data, m.a, (unsigned)m.b);
+            wire::set_bits(cur.data, m.a, (unsigned)m.b, cur_v + m.c);
+            cur.damaged = true;
+            w.count("fault.field_add");
         } else if (m.kind == "set") {
             wire::set_bits(cur.data, m.a, (unsigned)m.b, m.c);
             cur.damaged = true;
